@@ -4,6 +4,7 @@ import (
 	"encoding/json"
 	"fmt"
 	"os"
+	"strings"
 	"testing"
 
 	"github.com/brutella/hc/accessory"
@@ -28,6 +29,16 @@ type accSpec struct {
 	// with this index in the composition (-1: none). Removing a rejected duplicate is what a cleanup path does.
 	RemoveAfter int
 	hasRemove   bool
+	// Late: changes made to the accessory after it was published once (a program that builds its accessory
+	// step by step, or extends it at run time); afterwards all live accessories are published again, in a
+	// new container, the way a restarted transport does with the same objects
+	Late []lateOp
+}
+
+type lateOp struct {
+	NewService bool // add a whole service (else: a characteristic to service Svc)
+	Svc        int
+	Char       int
 }
 
 type svcSpec struct {
@@ -94,6 +105,36 @@ func build(specs []accSpec) (*accessory.Container, []builtAcc, error) {
 			victim.removed = true
 		}
 	}
+	late := false
+	for i := range out {
+		b := &out[i]
+		if len(b.spec.Late) == 0 || b.removed || b.addErr != nil {
+			continue
+		}
+		late = true
+		for _, op := range b.spec.Late {
+			ch, _, err := registry.NewChar(registry.Chars[op.Char%len(registry.Chars)])
+			if err != nil {
+				return nil, nil, err
+			}
+			if op.NewService {
+				s := service.New(fmt.Sprintf("%X", 0xE000+op.Svc))
+				s.AddCharacteristic(ch)
+				b.acc.AddService(s)
+			} else {
+				b.acc.Services[op.Svc%len(b.acc.Services)].AddCharacteristic(ch)
+			}
+		}
+	}
+	if late {
+		again := accessory.NewContainer()
+		for _, a := range cont.Accessories {
+			if err := again.AddAccessory(a); err != nil {
+				return nil, nil, fmt.Errorf("INVARIANT: publishing the live accessories again in a new container: %v", err)
+			}
+		}
+		cont = again
+	}
 	return cont, out, nil
 }
 
@@ -126,6 +167,9 @@ var knownPerms = map[string]bool{"pr": true, "pw": true, "ev": true, "hd": true,
 func check(specs []accSpec) error {
 	cont, bs, err := build(specs)
 	if err != nil {
+		if strings.HasPrefix(err.Error(), "INVARIANT") {
+			return err
+		}
 		return nil // unusable constructor: C15's finding, not a case here
 	}
 	inCont := map[*accessory.Accessory]bool{}
@@ -286,6 +330,11 @@ func genSpecs(t *rapid.T) []accSpec {
 			}
 			sp.Services = append(sp.Services, ss)
 		}
+		if rapid.IntRange(0, 5).Draw(t, "late") == 0 {
+			for k := rapid.IntRange(1, 3).Draw(t, "nlate"); k > 0; k-- {
+				sp.Late = append(sp.Late, lateOp{NewService: rapid.IntRange(0, 2).Draw(t, "lateService") == 0, Svc: rapid.IntRange(0, 8).Draw(t, "lateSvc"), Char: rapid.IntRange(0, len(registry.Chars)-1).Draw(t, "lateChar")})
+			}
+		}
 		if i > 0 && rapid.IntRange(0, 5).Draw(t, "remove") == 0 {
 			sp.hasRemove, sp.RemoveAfter = true, rapid.IntRange(0, i).Draw(t, "removeWhich")
 		}
@@ -338,6 +387,9 @@ func TestC14Prop(t *testing.T) {
 		for _, sp := range specs {
 			if sp.hasRemove {
 				cls = append(cls, "remove-accessory")
+			}
+			if len(sp.Late) > 0 {
+				cls = append(cls, "extended-after-publication")
 			}
 			for _, ss := range sp.Services {
 				if ss.Custom && ss.CustomChars == 0 {
